@@ -100,7 +100,8 @@ C12_GRAPHS = ("tree:4:7:1:ratio", "tree:4:2:0:shift", "treelike:4:5:1:ratio", "g
               "gmrf:integrated:3", "gmrf:integrated_weights:3", "gmrf:covariate:3", "gmrf:exp_field:3",
               "misc:scale_mixture", "misc:bridge", "misc:mvn", "misc:dists",
               "subst:GeneralSymHKY:weibull3_inv_mu:missing", "subst:GeneralNonSym:weibull4_inv:states",
-              "subst:GeneralSymId:invariant:missing", "subst:MG94:weibull2:states", "unrooted:4:1")
+              "subst:GeneralSymId:invariant:missing", "subst:MG94:weibull2:states", "unrooted:4:1",
+              "subst:JC69:constant_mu:missing")
 _GRAPH_CACHE = {}
 THOROUGH_ONLY = {"c12/tree:4:2:0:shift"}
 
@@ -115,6 +116,23 @@ def all_graphs():
 
         for gid in C12_GRAPHS:
             out["c12/" + gid] = c12.graph(gid)[0]
+        # an invariant-sites model with a rate multiplier (not among the C12 site models)
+        import copy
+
+        spec = copy.deepcopy(c12.graph("subst:HKY:invariant:missing")[0])
+
+        def add_mu(o):
+            if isinstance(o, dict):
+                if o.get("type") == "InvariantSiteModel":
+                    o["mu"] = P(o["id"] + ".mu", [1.7])
+                for v in o.values():
+                    add_mu(v)
+            elif isinstance(o, list):
+                for v in o:
+                    add_mu(v)
+
+        add_mu(spec)
+        out["hand_invariant_mu"] = spec
         _GRAPH_CACHE.update(out)
     return _GRAPH_CACHE
 
@@ -162,6 +180,12 @@ def alphabet(name, spec, reduced):
                 continue
             ops.append(("op_accept", k))
             ops.append(("op_reject", k))
+        if cls == "Optimizer" and not reduced and "LBFGS" not in type(o.optimizer).__name__:
+            # the real optimisation loop (in-place steps + notification): two iterations, and a
+            # run that its convergence monitor ends after the first iteration
+            ops.append(("opt_run", k))
+            if o.convergence is not None:
+                ops.append(("opt_run_stop", k))
         if isinstance(o, Distribution) and not reduced:
             ops.append(("sample", k))
         if cls in STOCHASTIC:
@@ -258,6 +282,20 @@ def apply(dic, spec0, op, pos):
                 dic[op[1]].accept()
             else:
                 dic[op[1]].reject()
+        elif kind in ("opt_run", "opt_run_stop"):
+            import contextlib
+            import io
+
+            torch.manual_seed(555 + pos)
+            o = dic[op[1]]
+            o.iterations = o._epoch + 1
+            o.checkpoint = None
+            o.loggers = []
+            if o.convergence is not None:
+                o.convergence.every = 1
+                o.convergence.tol_rel_obj = 1e9 if kind == "opt_run_stop" else -1.0
+            with contextlib.redirect_stdout(io.StringIO()):
+                o.run()
         elif kind == "sample":
             torch.manual_seed(977 + pos)
             dic[op[1]].sample()
@@ -437,7 +475,6 @@ EXCLUDED = {
     "KLpq": "no fixture", "KLpqImportance": "no fixture", "SELBO": "no fixture", "VR": "no fixture", "CUBO": "no fixture",
     "EmpiricalSubstitutionModel": "no parameters", "GeneralJC69": "no parameters",
     "LG": "no parameters", "WAG": "no parameters",
-    "InvariantSiteModel": "covered through WeibullSiteModel+invariant only",
 }
 
 
